@@ -230,7 +230,15 @@ func TestVerifC05(t *testing.T) {
 			ops = append(ops, all(1, 600)...)
 			ops = append(ops, hdJoinOp(2, 0, 0)) // 2 leaves the room
 			ops = append(ops, all(1, 700)...)
-			return []*hdCase{{Id: 0, Mode: 1, Ops: ops}}
+			// virtual sessions: reached through their internal client's connection with the recipient rewritten, also
+			// when the internal client itself is the sender
+			vo := []hdOp{{K: "connect", C: 1}, {K: "connect", C: 2}, {K: "hello", C: 1, Ht: "internal", B: 0}, {K: "hello", C: 2, B: 0, U: 5},
+				hdJoinOp(2, 1, 1), hdJoinOp(1, 1, 0), {K: "internal", C: 1, Ik: "addsession", V: 7, R: 1, U: 9},
+				{K: "msg", C: 1, To: &hdRecipient{T: "session", Id: &hdIdRef{T: "vpub", C: 1, V: 7}}, Tag: 42},
+				{K: "ctl", C: 1, To: &hdRecipient{T: "session", Id: &hdIdRef{T: "vpub", C: 1, V: 7}}, Tag: 43},
+				{K: "msg", C: 2, To: &hdRecipient{T: "session", Id: &hdIdRef{T: "vpub", C: 1, V: 7}}, Tag: 44},
+				{K: "msg", C: 2, To: &hdRecipient{T: "room"}, Tag: 45}, {K: "msg", C: 1, To: &hdRecipient{T: "room"}, Tag: 46}}
+			return []*hdCase{{Id: 0, Mode: 1, Ops: ops}, {Id: 1, Mode: 1, Ops: vo}}
 		}})
 }
 
